@@ -39,8 +39,10 @@ def G(name, harness, entry=None, srcs=(), defs=(), arch=64, enforce=(), replace=
       rewrite=(), native=True, native_srcs=None, search=0, fn=(), note="",
       obj_bits=None, ndebug=False, fast=False, neg_control=False, cfg_indep=False,
       no_shims=False, native_defs=(), stubs=(), expect_fail=(), dfcc=False,
-      inline_loops=False, split=False, src_defs=()):
+      inline_loops=False, split=False, src_defs=(), spec_unwind=None):
     """One obligation group.
+    spec_unwind: unwinding bound for the loops of harness/spec functions (h_*, r_*, mon_*),
+                so that `unwind` can stay tight for the loops of the repository code
     harness   : path under /verif (C file holding the harness function `entry`)
     srcs      : repo-relative sources compiled with the harness (real code)
     stubs     : /verif-relative C files linked only in the CBMC build (assumed contracts)
@@ -554,6 +556,12 @@ def run_group(pid, g, tier, seed, keep=False):
              violations=[], note=g["note"], neg_control=g["neg_control"], samples=[])
     try:
         binary = build_goto(g, wd, env, pid)
+        if g["spec_unwind"]:
+            rc, lout, err, _, _ = slot_sh(["goto-instrument", "--show-loops", binary], timeout=120, env=env)
+            ids = [m.group(1) for m in re.finditer(r"^Loop (\S+):", lout, re.M)]
+            g = dict(g)
+            g["unwindset"] = list(g["unwindset"]) + ["%s:%d" % (i, g["spec_unwind"]) for i in ids
+                                                     if re.match(r"^(h_|r_|mon_|spec_)", i)]
         cr = run_cbmc(g, binary, env)
         R["backend_used"] = cr["backend"]
         R["solver_wall_s"] = round(cr["wall"], 2)
